@@ -366,6 +366,17 @@ func pointOf(desc string) string {
 	return desc
 }
 
+// globalsOnly drops comment lines from saved chunks: they define no global, so a reloaded state does not dump them
+func globalsOnly(chunks [][]byte) [][]byte {
+	var out [][]byte
+	for _, ch := range chunks {
+		if !bytes.HasPrefix(ch, []byte("//")) {
+			out = append(out, ch)
+		}
+	}
+	return out
+}
+
 func classify(o observation, p *pair) string {
 	isOld := (!p.hasOld && !o.hasGr) || (p.hasOld && o.hasGr && bytes.Equal(o.gr, p.oldBytes))
 	isNew := o.hasGr && bytes.Equal(o.gr, p.newBytes)
@@ -459,6 +470,7 @@ func (h *harness) check(p *pair, desc, dir string, r childResult, modelScen, kin
 	if cls == "old" {
 		want = p.oldChunks
 	}
+	want = globalsOnly(want)
 	if cls == "old" || cls == "new" || cls == "both" {
 		lr := h.run(nil, nil, -1, "load", dir)
 		if lr.lines["LOADERR"] != "0" || !bytes.Equal(joinChunks(parseChunks(lr.lines["DUMP"])), joinChunks(want)) {
@@ -1005,6 +1017,16 @@ func (h *harness) straceSweep(p *pair, whole bool) {
 	}
 }
 
+func failRank(sig string) int {
+	switch {
+	case strings.HasPrefix(sig, "statefile-"):
+		return 0
+	case strings.HasPrefix(sig, "fault-damaged-statefile"), strings.HasPrefix(sig, "autoload-differs"):
+		return 1
+	}
+	return 2
+}
+
 func runC18(c *Ctx) {
 	c.Rule = "child process per (state pair, crash point | fault point): hook crash points start/created/write#k/write#k:n(torn)/written/renamed, " +
 		"hook and hook-free (RLIMIT_FSIZE, RLIMIT_NOFILE, strace error injection) failing calls, strace SIGKILL at the k-th write/openat/renameat, timed SIGKILL; " +
@@ -1086,6 +1108,8 @@ func runC18(c *Ctx) {
 			h.scenario(tp, fmt.Sprintf("timed:%d", c.R.Intn(600)))
 		}
 	}
+	// report damage to the state file before secondary symptoms (stray files, model-only differences)
+	sort.SliceStable(c.Failures, func(i, j int) bool { return failRank(c.Failures[i].Sig) < failRank(c.Failures[j].Sig) })
 	c.Extra["scratch_dirs_used"] = h.nDirs
 	c.Extra["strace"] = h.strace != ""
 	// leave nothing behind
